@@ -117,7 +117,8 @@ def damage(rng, directory):
             if fn.endswith('.val'):
                 vals.append(os.path.join(dp, fn))
     vals.sort()
-    kinds = ['delete', 'truncate', 'extend', 'add_known_dir', 'add_new_dir', 'empty2', 'empty1', 'empty12', 'count', 'size']
+    kinds = ['delete', 'truncate', 'extend', 'add_known_dir', 'add_new_dir', 'empty2', 'empty1', 'empty12', 'count', 'size',
+             'move_known_dir', 'move_new_dir']
     for kind in rng.sample(kinds, rng.randint(0, 6)):
         if kind in ('delete', 'truncate', 'extend') and vals:
             p = vals.pop(rng.randrange(len(vals)))
@@ -129,6 +130,18 @@ def damage(rng, directory):
             else:
                 with open(p, 'ab') as f:
                     f.write(b'x' * rng.randint(1, 9))
+        elif kind in ('move_known_dir', 'move_new_dir') and vals:
+            # a value file moved elsewhere in the tree: the row's file is missing AND an unknown file
+            # with the same base name exists
+            p = vals.pop(rng.randrange(len(vals)))
+            if kind == 'move_known_dir' and vals:
+                d = os.path.dirname(rng.choice(vals))
+            else:
+                d = os.path.join(directory, '%02x' % rng.randrange(256), '%02x' % rng.randrange(256))
+            if os.path.dirname(p) == d:
+                continue
+            os.makedirs(d, exist_ok=True)
+            os.replace(p, os.path.join(d, os.path.basename(p)))
         elif kind == 'add_known_dir' and vals:
             d = os.path.dirname(rng.choice(vals))
             with open(os.path.join(d, '%028x.val' % rng.getrandbits(100)), 'wb') as f:
